@@ -193,6 +193,15 @@ type Conn struct {
 func (c *Conn) LocalAddr() net.Addr  { return c.local }
 func (c *Conn) RemoteAddr() net.Addr { return c.remote }
 
+// SetWriteStall: while on, the peer does not read and its socket buffer is
+// full: writes block until their deadline (or until the stall ends).
+func (c *Conn) SetWriteStall(on bool) {
+	c.mu.Lock()
+	c.StallWrites = on
+	c.wakeReaders()
+	c.mu.Unlock()
+}
+
 func (c *Conn) wakeReaders() {
 	if c.rwait != nil {
 		close(c.rwait)
